@@ -55,6 +55,23 @@ Theorem C18_obj_invariant_partial : forall db tid ops, db_wok db = true -> db_st
 Proof. exact obj_invariant_partial. Qed.
 Print Assumptions C18_obj_invariant_partial.
 
+(* the theorem that is live for the tree in /repo: `arrelem_quirk_gen` (Generated/Gen_PyObj.v) says whether the scanned assign_array
+   macro still stores unchecked elements (true: the partial statement applies) or has the shape of the fix (false: full contract
+   for every type database) *)
+Theorem C18_obj_invariant_live : forall db tid ops, db_wok db = true ->
+  (arrelem_quirk_gen = false \/ db_std_elems pick_width_gen db = true) ->
+  wfv pick_width_gen db true (run tmpl_gen pick_width_gen arrelem_quirk_gen db tid ops) = true.
+Proof. exact obj_invariant_live. Qed.
+Print Assumptions C18_obj_invariant_live.
+
+(* the conformant variant treats float16/32 array elements like the scalar setter: 1e6 raises, 65504.0 and +inf are stored *)
+Theorem C18_float_array_elem_noquirk :
+  assign_array tmpl_gen pick_width_gen false false 2 false (EPrim (KF 16)) (PList [PFloat 4696837146684686336]) = Raise ValueError
+  /\ assign_array tmpl_gen pick_width_gen false false 2 false (EPrim (KF 16)) (PList [PFloat 4679235614791434240; PFloat 9218868437227405312])
+     = Ok (PArr (DF 16) [PFloat 4679235614791434240; PFloat 9218868437227405312]).
+Proof. exact (conj float_array_elem_checked_noquirk float_array_elem_boundary_noquirk). Qed.
+Print Assumptions C18_float_array_elem_noquirk.
+
 (* a raising property setter leaves the object as it was *)
 Theorem C18_reject_means_unchanged : forall q db tid o i e o' ex,
   step tmpl_gen pick_width_gen q db tid o (OSet i e) = (o', Some ex) -> o' = o.
